@@ -539,17 +539,29 @@ pub fn probs_from_weights(weights: &[u32], residual: u32) -> Vec<f32> {
     ps
 }
 
-/// A transition list for a machine with `n` regular states.
-pub fn trans_list(n: usize, p: &MachineParams) -> BoxedStrategy<Vec<(usize, Fs)>> {
+/// A transition list before the number of states is known: regular targets are 16-bit
+/// selectors that are mapped monotonically onto 0..n when the machine is assembled (no
+/// flat_map: better shrinking, and byte-driven generation does not fork its stream).
+#[derive(Clone, Debug)]
+pub struct RawList {
+    /// (target selector: 0..=0xffff regular, SEL_END, SEL_SIGNAL; weight)
+    raw: Vec<(u32, u32)>,
+    residual: u32,
+    sel: u8,
+}
+
+const SEL_END: u32 = 1 << 20;
+const SEL_SIGNAL: u32 = 1 << 21;
+
+fn raw_trans_list(p: &MachineParams) -> BoxedStrategy<RawList> {
     let (wr, we, ws) = (p.w_regular, p.w_end, p.w_signal);
-    let style = p.prob_style;
     let target = {
-        let mut arms: Vec<(u32, BoxedStrategy<usize>)> = vec![(wr.max(1), (0..n).boxed())];
+        let mut arms: Vec<(u32, BoxedStrategy<u32>)> = vec![(wr.max(1), any::<u16>().prop_map(|x| x as u32).boxed())];
         if we > 0 {
-            arms.push((we, Just(STATE_END).boxed()));
+            arms.push((we, Just(SEL_END).boxed()));
         }
         if ws > 0 {
-            arms.push((ws, Just(STATE_SIGNAL).boxed()));
+            arms.push((ws, Just(SEL_SIGNAL).boxed()));
         }
         proptest::strategy::Union::new_weighted(arms)
     };
@@ -558,96 +570,122 @@ pub fn trans_list(n: usize, p: &MachineParams) -> BoxedStrategy<Vec<(usize, Fs)>
         prop_oneof![3 => Just(0u32), 2 => 1u32..=8],
         0u8..10,
     )
-        .prop_map(move |(raw, residual, sel)| {
-            // distinct targets, first occurrence wins
-            let mut targets: Vec<usize> = vec![];
-            let mut weights: Vec<u32> = vec![];
-            for (t, w) in raw {
-                if !targets.contains(&t) {
-                    targets.push(t);
-                    weights.push(w);
-                }
-            }
-            match style {
-                1 => vec![(targets[0], Fs(1.0))],
-                2 => {
-                    // multiples of 1/4: up to four quarters shared among targets
-                    let k = targets.len().min(4);
-                    let mut q = vec![1u32; k];
-                    let mut left = 4 - k as u32;
-                    let keep_residual = residual % 2 == 1 && left > 0;
-                    if keep_residual {
-                        left -= 1;
-                    }
-                    let mut i = 0;
-                    while left > 0 {
-                        q[(i + sel as usize) % k] += 1;
-                        left -= 1;
-                        i += 1;
-                    }
-                    targets
-                        .into_iter()
-                        .take(k)
-                        .zip(q)
-                        .map(|(t, q)| (t, Fs(q as f32 * 0.25)))
-                        .collect()
-                }
-                _ => {
-                    if sel < 3 {
-                        // a single certain transition
-                        vec![(targets[0], Fs(1.0))]
-                    } else {
-                        let ps = probs_from_weights(&weights, residual);
-                        targets.into_iter().zip(ps).map(|(t, p)| (t, Fs(p))).collect()
-                    }
-                }
-            }
-        })
+        .prop_map(|(raw, residual, sel)| RawList { raw, residual, sel })
         .boxed()
 }
 
-pub fn state_spec(n: usize, p: &MachineParams) -> BoxedStrategy<StateSpec> {
+/// Resolve a raw list for a machine with `n` regular states.
+pub fn resolve_list(l: &RawList, n: usize, style: u8) -> Vec<(usize, Fs)> {
+    // distinct targets, first occurrence wins
+    let mut targets: Vec<usize> = vec![];
+    let mut weights: Vec<u32> = vec![];
+    for (t, w) in &l.raw {
+        let t = match *t {
+            SEL_END => STATE_END,
+            SEL_SIGNAL => STATE_SIGNAL,
+            x => pick(x as u16, n),
+        };
+        if !targets.contains(&t) {
+            targets.push(t);
+            weights.push(*w);
+        }
+    }
+    let (residual, sel) = (l.residual, l.sel);
+    match style {
+        1 => vec![(targets[0], Fs(1.0))],
+        2 => {
+            // multiples of 1/4: up to four quarters shared among targets
+            let k = targets.len().min(4);
+            let mut q = vec![1u32; k];
+            let mut left = 4 - k as u32;
+            let keep_residual = residual % 2 == 1 && left > 0;
+            if keep_residual {
+                left -= 1;
+            }
+            let mut i = 0;
+            while left > 0 {
+                q[(i + sel as usize) % k] += 1;
+                left -= 1;
+                i += 1;
+            }
+            targets.into_iter().take(k).zip(q).map(|(t, q)| (t, Fs(q as f32 * 0.25))).collect()
+        }
+        _ => {
+            if sel < 3 {
+                // a single certain transition
+                vec![(targets[0], Fs(1.0))]
+            } else {
+                let ps = probs_from_weights(&weights, residual);
+                targets.into_iter().zip(ps).map(|(t, p)| (t, Fs(p))).collect()
+            }
+        }
+    }
+}
+
+/// A transition list for a machine with `n` regular states.
+pub fn trans_list(n: usize, p: &MachineParams) -> BoxedStrategy<Vec<(usize, Fs)>> {
+    let style = p.prob_style;
+    raw_trans_list(p).prop_map(move |l| resolve_list(&l, n, style)).boxed()
+}
+
+#[derive(Clone, Debug)]
+pub struct RawState {
+    action: Option<ActionSpec>,
+    counter_a: Option<CounterSpec>,
+    counter_b: Option<CounterSpec>,
+    lists: Vec<Option<RawList>>,
+}
+
+fn raw_state(p: &MachineParams) -> BoxedStrategy<RawState> {
     let action = opt_w(p.p_action, action_spec(p));
     let ca = opt_w(p.p_counter, counter_spec(p));
     let cb = opt_w(p.p_counter, counter_spec(p));
-    let mut per_event: Vec<BoxedStrategy<Option<Vec<(usize, Fs)>>>> = vec![];
+    let mut per_event: Vec<BoxedStrategy<Option<RawList>>> = vec![];
     for e in 0..13 {
-        per_event.push(opt_w(p.p_trans[e], trans_list(n, p)).boxed());
+        per_event.push(opt_w(p.p_trans[e], raw_trans_list(p)).boxed());
     }
     (action, ca, cb, per_event)
-        .prop_map(|(action, counter_a, counter_b, lists)| StateSpec {
-            action,
-            counter_a,
-            counter_b,
-            trans: lists
-                .into_iter()
-                .enumerate()
-                .filter_map(|(e, l)| l.map(|l| (e as u8, l)))
-                .collect(),
-        })
+        .prop_map(|(action, counter_a, counter_b, lists)| RawState { action, counter_a, counter_b, lists })
         .boxed()
 }
 
+fn resolve_state(r: &RawState, n: usize, style: u8) -> StateSpec {
+    StateSpec {
+        action: r.action,
+        counter_a: r.counter_a,
+        counter_b: r.counter_b,
+        trans: r
+            .lists
+            .iter()
+            .enumerate()
+            .filter_map(|(e, l)| l.as_ref().map(|l| (e as u8, resolve_list(l, n, style))))
+            .collect(),
+    }
+}
+
+pub fn state_spec(n: usize, p: &MachineParams) -> BoxedStrategy<StateSpec> {
+    let style = p.prob_style;
+    raw_state(p).prop_map(move |r| resolve_state(&r, n, style)).boxed()
+}
+
 pub fn machine(p: &MachineParams) -> BoxedStrategy<MachineSpec> {
-    let p = p.clone();
-    let budgets = p.budgets;
-    (p.min_states..=p.max_states)
-        .prop_flat_map(move |n| {
-            let states = proptest::collection::vec(state_spec(n, &p), n..=n);
-            let b = match budgets {
-                BudgetProfile::Any => (allowed_budget(), fraction(), allowed_budget(), fraction()).boxed(),
-                BudgetProfile::Unlimited => {
-                    (Just(u64::MAX), Just(0.0), Just(u64::MAX), Just(0.0)).boxed()
-                }
-            };
-            (b, states)
-        })
-        .prop_map(|((app, mpf, abm, mbf), states)| MachineSpec {
-            allowed_padding_packets: app,
-            max_padding_frac: Fx(mpf),
-            allowed_blocked_microsec: abm,
-            max_blocking_frac: Fx(mbf),
-            states,
+    let style = p.prob_style;
+    let b = match p.budgets {
+        BudgetProfile::Any => (allowed_budget(), fraction(), allowed_budget(), fraction()).boxed(),
+        BudgetProfile::Unlimited => (Just(u64::MAX), Just(0.0), Just(u64::MAX), Just(0.0)).boxed(),
+    };
+    // the number of states is the length of the vector: no dependent generation needed
+    let states = proptest::collection::vec(raw_state(p), p.min_states.max(1)..=p.max_states.max(1));
+    (b, states)
+        .prop_map(move |((app, mpf, abm, mbf), raw)| {
+            let n = raw.len();
+            MachineSpec {
+                allowed_padding_packets: app,
+                max_padding_frac: Fx(mpf),
+                allowed_blocked_microsec: abm,
+                max_blocking_frac: Fx(mbf),
+                states: raw.iter().map(|r| resolve_state(r, n, style)).collect(),
+            }
         })
         .boxed()
 }
